@@ -98,6 +98,7 @@ def _case(draw):
     case["partition"] = draw(st.lists(
         st.sampled_from([3, 2, 4, 1, 2, 5, 3, 6, 8]), min_size=1,
         max_size=10))
+    case["arg_style"] = draw(st.sampled_from(R.ARG_STYLES))
     return case
 
 
@@ -245,6 +246,16 @@ def _bits(a):
 
 # ---------------------------------------------------------------- oracle ----
 def run_case(case):
+    R.set_arg_style(case.get("arg_style"))
+    try:
+        out = _run_case(case)
+    finally:
+        R.set_arg_style(None)
+    out.labels.append(f"arg_style={case.get('arg_style') or 'ndarray'}")
+    return out
+
+
+def _run_case(case):
     kind, name, cfg = case["kind"], case["name"], case["config"]
     comp = R.component_label(kind, name, cfg)
     spec = R.spec_of(kind, name)
